@@ -339,7 +339,7 @@ class StratRec:
                   w1=(_round_or_nan(w1, u) if w1 is not None else -1), has_wallet=w1 is not None,
                   has_metrics=has_m, np=(_round_or_nan(m['net_profit'], u) if has_m else 0),
                   fb=(_round_or_nan(m['finishing_balance'], u) if has_m else 0), total=(int(m['total']) if has_m else 0),
-                  completed=not out.get('exc'))
+                  completed=not out.get('exc'), expect_metrics=bool(self.item.get('expect_metrics', True)))
         return self.ev
 
 
